@@ -14,6 +14,7 @@ import OFV.Proofs.C05Srl
 import OFV.Proofs.C05TreeLadder
 import OFV.Proofs.C05Car
 import OFV.Proofs.C05SrlAll
+import OFV.Proofs.C05Iop8
 
 namespace OFV.C05
 open OFV OFV.Spec OFV.Model OFV.Model.C05 OFV.Sem OFV.BK OFV.BKT
@@ -295,6 +296,78 @@ theorem srl_support (tol : Rat) (htol : tol * tol ≤ 1 / 4) (n i j : Nat) (hi :
   rw [h]
   exact this
 
+/-! ### `bravyi_kitaev(InteractionOperator, n_qubits)` -/
+
+/-- **the loops of `_bravyi_kitaev_interaction_operator` as one sum**: the returned Hamiltonian is the `+=`-fold
+over the operands of case A (`n_i`), case C (`n_i · excitation`) and case D (`_hermitian_one_body_product`),
+in program order, plus `_qubit_operator_creation` of all pending strings (one-body pairs, Coulomb/exchange
+`Z`-strings) with the accumulated constant — an identity of Model terms, no hypothesis. -/
+theorem bk_interaction_unfold (tol : Rat) (N nq : Nat) (const : GQ) (one two : List GQ) :
+    bkInteractionOp tol N nq const one two
+      = iadd tol ((iopA tol N nq (Model.C05.get1 N one) ++ iopC tol N nq (Model.C05.get2 N two)
+            ++ iopD tol N nq (Model.C05.get2 N two)).foldl (fun acc img => iadd tol acc img) [])
+          (qubitOperatorCreation tol ((iopPend N nq (Model.C05.get1 N one) (Model.C05.get2 N two)).map (·.1) ++ [[]])
+            ((iopPend N nq (Model.C05.get1 N one) (Model.C05.get2 N two)).map (·.2)
+              ++ [iopConst N const (Model.C05.get2 N two)])) := by
+  rw [iopConst_eq]; exact bkInteractionOp_unfold tol N nq const one two
+
+/-- **`bravyi_kitaev(InteractionOperator, n_qubits)` is sound**: for every tensor size `N`, every `n_qubits ≥ N`
+(also strictly larger than the tensor), every constant and every pair of tensors denoting a Hermitian operator
+(`one[q,p] = conj one[p,q]`; the antisymmetrised two-body tensor `K[pq,rs] = T[pqrs] − T[pqsr] + T[qpsr] − T[qprs]`
+— exactly what `_two_body_coef` reads — satisfies `K[rs,pq] = conj K[pq,rs]`; real or complex; the storage need
+not be Hermitian element by element), the Hamiltonian assembled from the algebraic Seeley-Richard-Love expressions
+(cases A-D) has the matrix elements of `const + Σ one[p,q] a†_p a_q + Σ two[p,q,r,s] a†_p a†_q a_r a_s` between
+encoded states — on every exact run (`bkInteractionOpOk`: every `+=` and every `_qubit_operator_creation`
+deleted only exact zeros; evaluated by the driver on every generated tensor). -/
+theorem bk_interaction_sound (tol : Rat) (htol : tol * tol ≤ 1 / 4) (N nq : Nat) (hN : N ≤ nq) (const : GQ)
+    (one two : List GQ)
+    (h1 : ∀ p q, p < N → q < N → Model.C05.get1 N one q p = (Model.C05.get1 N one p q).conj)
+    (h2 : ∀ p q r s, p < N → q < N → r < N → s < N →
+      Model.C05.get2 N two r s p q - Model.C05.get2 N two r s q p + Model.C05.get2 N two s r q p
+          - Model.C05.get2 N two s r p q
+        = (Model.C05.get2 N two p q r s - Model.C05.get2 N two p q s r + Model.C05.get2 N two q p s r
+          - Model.C05.get2 N two q p r s).conj)
+    (hok : bkInteractionOpOk tol N nq const one two = true) (s s' : Nat) :
+    GV.coeff (applyOp .qubit (bkInteractionOp tol N nq const one two) [Spec.C05.enc .bk nq s]) [Spec.C05.enc .bk nq s']
+      = GV.coeff (applyOp .fermion (Spec.C04.interactionOp N const one two) [s]) [s'] :=
+  bkIop_sound tol htol N nq hN const one two h1 h2 hok s s'
+
+/-- … and it maps encoded states to encoded states only (no Hermiticity needed) -/
+theorem bk_interaction_support (tol : Rat) (htol : tol * tol ≤ 1 / 4) (N nq : Nat) (hN : N ≤ nq) (const : GQ)
+    (one two : List GQ) (hok : bkInteractionOpOk tol N nq const one two = true) (s x : Nat)
+    (hx : ∀ s', Spec.C05.enc .bk nq s' ≠ x) :
+    GV.coeff (applyOp .qubit (bkInteractionOp tol N nq const one two) [Spec.C05.enc .bk nq s]) [x] = 0 :=
+  bkIop_support tol htol N nq hN const one two hok s x hx
+
+/-- **the InteractionOperator path agrees with the FermionOperator path**: `bravyi_kitaev(iop, n)` and
+`bravyi_kitaev(get_fermion_operator(iop), n)` have the same matrix elements between encoded states (both runs in
+their exact regimes) -/
+theorem bk_interaction_matches_fermion_path (tol : Rat) (htol : tol * tol ≤ 1 / 4) (N nq : Nat) (hN : N ≤ nq)
+    (const : GQ) (one two : List GQ)
+    (h1 : ∀ p q, p < N → q < N → Model.C05.get1 N one q p = (Model.C05.get1 N one p q).conj)
+    (h2 : ∀ p q r s, p < N → q < N → r < N → s < N →
+      Model.C05.get2 N two r s p q - Model.C05.get2 N two r s q p + Model.C05.get2 N two s r q p
+          - Model.C05.get2 N two s r p q
+        = (Model.C05.get2 N two p q r s - Model.C05.get2 N two p q s r + Model.C05.get2 N two q p s r
+          - Model.C05.get2 N two q p r s).conj)
+    (hok : bkInteractionOpOk tol N nq const one two = true)
+    (hok' : bkFermionOk tol nq (Spec.C04.interactionOp N const one two) = true) (s s' : Nat) :
+    GV.coeff (applyOp .qubit (bkInteractionOp tol N nq const one two) [Spec.C05.enc .bk nq s]) [Spec.C05.enc .bk nq s']
+      = GV.coeff (applyOp .qubit (bkFermion tol nq (Spec.C04.interactionOp N const one two)) [Spec.C05.enc .bk nq s])
+          [Spec.C05.enc .bk nq s'] := by
+  rw [bk_interaction_sound tol htol N nq hN const one two h1 h2 hok s s']
+  refine (bk_exact tol htol nq _ ?_ hok' s s').symm
+  intro tc htc f hf
+  unfold Spec.C04.interactionOp at htc
+  simp only [List.mem_append, List.mem_cons, List.not_mem_nil, or_false, List.mem_flatMap, List.mem_map,
+    List.mem_range] at htc
+  rcases htc with (rfl | ⟨p, hp, q, hq, rfl⟩) | ⟨p, hp, q, hq, r, hr, s, hs, rfl⟩
+  · simp at hf
+  · simp only [List.mem_cons, List.not_mem_nil, or_false] at hf
+    rcases hf with rfl | rfl <;> simp <;> omega
+  · simp only [List.mem_cons, List.not_mem_nil, or_false] at hf
+    rcases hf with rfl | rfl | rfl | rfl <;> simp <;> omega
+
 /-! ### `bravyi_kitaev_tree` (FenwickTree built by recursive bisection), every `n` -/
 
 /-- **`FenwickTree.get_update_set` is correct for every `n`**: the ancestors of `j` in the tree built by the
@@ -441,6 +514,33 @@ example : (∀ t ∈ [(0, 0, 0), (1, 2, 0), (1, 0, 2), (2, 1, 0), (2, 1, 4), (3,
     (srl t.2.1 t.2.2 ⟨mkRat 3 4, -2⟩ 11).1 = t.1 ∧ srlOk Generated.eqTolerance t.2.1 t.2.2 ⟨mkRat 3 4, -2⟩ 11 = true) := by
   decide +kernel
 
+/-- the hypotheses of `bk_interaction_sound` on a concrete complex 4-orbital InteractionOperator in NON-canonical
+storage (quartic entry `T[3,2,1,0] = 1/2 + i` with its Hermitian partner stored as `T[1,0,2,3] = -(1/2 - i)`,
+an imaginary number-excitation entry, a Coulomb entry, junk on a `p = q` entry), on 5 qubits (`n_qubits > N`):
+all cases A-D are exercised, and the exact-regime flag is kernel-evaluated -/
+example :
+    let one : List GQ := [0, ⟨1, 1⟩, 0, 0, ⟨1, -1⟩, 0, 0, 0, 0, 0, ⟨mkRat 1 2, 0⟩, 0, 0, 0, 0, 0]
+    let two : List GQ := [0, 0, 0, 0, 0, 0, 0, 0, 0, 0, 0, 0, 0, 0, 0, 0, 0, 0, 0, 0, 0, 0, 0, 0, 0, 0, 0, 0, 0, 0, 0, 0, 0, 0, 0, 0, 0, 0, 0, 0, 0, ⟨0, -2⟩, 0, 0, 0, 0, 0, 0, 0, 0, 0, 0, 0, 0, 0, 0, 0, 0, 0, 0, 0, 0, 0, 0, 0, 0, 0, 0, 0, 0, 0, 0, 0, 0, 0, ⟨-(mkRat 1 2), 1⟩, 0, 0, 0, 0, 0, 0, 0, 0, 0, 0, 0, 0, ⟨7, 3⟩, 0, 0, 0, 0, 0, 0, 0, 0, 0, 0, 0, 0, 0, 0, 0, 0, 0, 0, 0, 0, 0, 0, 0, 0, 0, 0, 0, 0, 0, 0, 0, 0, 0, 0, 0, 0, 0, 0, 0, 0, 0, 0, 0, 0, 0, 0, 0, 0, 0, 0, 0, 0, 0, 0, 0, 0, 0, ⟨0, 2⟩, 0, 0, 0, 0, 0, 0, 0, 0, 0, 0, 0, 0, 0, 0, 0, 0, 0, 0, 0, 0, 0, 0, 0, 0, 0, 0, 0, 0, 0, 0, 0, 0, 0, 0, 0, 0, 0, 0, 0, 0, 0, 0, 0, 0, 0, 0, 0, 0, 0, 0, 0, 0, 0, 0, 0, 0, 0, 0, 0, 0, 0, 0, 0, 0, 0, 0, 0, 0, ⟨mkRat 3 4, 0⟩, 0, 0, 0, 0, 0, 0, 0, 0, 0, 0, 0, 0, ⟨mkRat 1 2, 1⟩, 0, 0, 0, 0, 0, 0, 0, 0, 0, 0, 0, 0, 0, 0, 0, 0, 0, 0, 0, 0, 0, 0, 0, 0, 0, 0, 0]
+    (∀ p q, p < 4 → q < 4 → Model.C05.get1 4 one q p = (Model.C05.get1 4 one p q).conj)
+    ∧ (∀ p q r s, p < 4 → q < 4 → r < 4 → s < 4 →
+        Model.C05.get2 4 two r s p q - Model.C05.get2 4 two r s q p + Model.C05.get2 4 two s r q p
+            - Model.C05.get2 4 two s r p q
+          = (Model.C05.get2 4 two p q r s - Model.C05.get2 4 two p q s r + Model.C05.get2 4 two q p s r
+            - Model.C05.get2 4 two q p r s).conj)
+    ∧ bkInteractionOpOk Generated.eqTolerance 4 5 ⟨mkRat 1 2, 0⟩ one two = true := by
+  intro one two
+  refine ⟨?_, ?_, by decide +kernel⟩
+  · have H : ∀ p, p < 4 → ∀ q, q < 4 → Model.C05.get1 4 one q p = (Model.C05.get1 4 one p q).conj := by
+      decide +kernel
+    exact fun p q hp hq => H p hp q hq
+  · have H : ∀ p, p < 4 → ∀ q, q < 4 → ∀ r, r < 4 → ∀ s, s < 4 →
+        Model.C05.get2 4 two r s p q - Model.C05.get2 4 two r s q p + Model.C05.get2 4 two s r q p
+            - Model.C05.get2 4 two s r p q
+          = (Model.C05.get2 4 two p q r s - Model.C05.get2 4 two p q s r + Model.C05.get2 4 two q p s r
+            - Model.C05.get2 4 two q p r s).conj := by
+      decide +kernel
+    exact fun p q r s hp hq hr hs => H p hp q hq r hr s hs
+
 example : ∀ m ∈ [11, 0, 3, 11, 4], m / 2 < 6 := by decide
 
 /-- the exact-regime hypothesis of `tree_exact` on a concrete operator, `n = 6` (tree ≠ Fenwick there) -/
@@ -451,8 +551,6 @@ example : bkTreeFermionOk Generated.eqTolerance 6
 /-! ### statements of C05 that are NOT proved here (covered by correspondence + Spec oracle only; see
 `OPEN_STATEMENTS` in harness/c05.py)
 
-* `bk_interaction_sound` (open): `bkInteractionOp N n …` denotes the tensor formula under `enc .bk n`, for all
-  `n ≥ N` (would follow from `srl_sound` and the product/sum lemmas used for `bk_exact`).
 * isospectrality with Jordan-Wigner / preservation of expectation values as separate statements (they follow from
   `bk_exact` + `bk_enc_injective`: the transformed operator is the Jordan-Wigner one conjugated by the relabelling). -/
 
